@@ -8,8 +8,8 @@ T = pg.typing
 MISSING = pg.MISSING_VALUE
 
 TIERS = {
-    'quick': dict(shards=8, cases=400, pool_min=20, pool_max=30),
-    'thorough': dict(shards=16, cases=3000, pool_min=20, pool_max=30),
+    'quick': dict(shards=8, cases=250, pool_min=20, pool_max=30),
+    'thorough': dict(shards=16, cases=1200, pool_min=20, pool_max=30),
 }
 RULE = ('case = one pool of 20-30 values built to collide: a small palette of atoms '
         '(numbers equal across bool/int/float, strings, None, MISSING_VALUE), tuples of '
@@ -155,7 +155,7 @@ class Palette:
     self.nums = [v for g in groups for v in g]
     self.strs = rng.sample(STRS, 3)
     self.tuple_family = rng.choice(['num', 'str'])
-    self.same_qualname = rng.random() < 0.35
+    self.same_qualname = rng.random() < 0.15
     self.int_keys = rng.random() < 0.5
     self.classes = ['A', 'B', 'C', 'D', 'N'] + (['S1', 'S2'] if self.same_qualname else [])
 
@@ -375,8 +375,52 @@ def flags(a, b, out):
       out.add('same-qualname-classes')
 
 
+def same(x, y):
+  """The harness's own structural equality (used only to name mechanisms)."""
+  kx, ky = MECH_KIND[kind(x)], MECH_KIND[kind(y)]
+  if kx != ky:
+    return False
+  if kx in ('MISSING', 'None'):
+    return True
+  if kx in ('number', 'str', 'tuple'):
+    return x == y
+  if kx == 'list':
+    return len(x) == len(y) and all(same(p, q) for p, q in zip(x, y))
+  if kx == 'dict':
+    return set(x.keys()) == set(y.keys()) and all(same(x[k], y[k]) for k in x.keys())
+  return type(x) is type(y) and all(
+      same(p, q) for (_, p), (_, q) in zip(x.sym_items(), y.sym_items()))
+
+
+def locus(a, b):
+  """The pair of sub-nodes at which a first-difference comparison of a and b ends."""
+  while True:
+    if isinstance(a, list) and isinstance(b, list):
+      pairs = list(zip(a, b))
+    elif isinstance(a, dict) and isinstance(b, dict):
+      pairs = []
+      for ka, kb in zip(list(a.keys()), list(b.keys())):
+        if ka != kb:
+          break
+        pairs.append((a[ka], b[kb]))
+    elif isinstance(a, pg.Object) and type(a) is type(b):
+      pairs = [(x, y) for (_, x), (_, y) in zip(a.sym_items(), b.sym_items())]
+    else:
+      return a, b
+    for x, y in pairs:
+      if not same(x, y):
+        a, b = x, y
+        break
+    else:
+      return a, b
+
+
+MECH_KIND = {'MISSING': 'MISSING', 'None': 'None', 'bool': 'number', 'int': 'number',
+             'float': 'number', 'str': 'str', 'list': 'list', 'List': 'list',
+             'tuple': 'tuple', 'dict': 'dict', 'Dict': 'dict', 'object': 'object'}
+MECH_ORDER = ['MISSING', 'None', 'number', 'str', 'list', 'tuple', 'dict', 'object']
 RAISE_PREF = ['same-qualname-classes', 'dict-mixed-key-types', 'dict-key-order']
-LAW_PREF = ['dict-key-order', 'dict-mixed-key-types', 'same-qualname-classes']
+LAW_PREF = ['dict-key-order']
 
 
 class Pool:
@@ -386,6 +430,7 @@ class Pool:
     self.vals = [build(d) for d in descs]
     self.kinds = [kind(v) for v in self.vals]
     self.n = len(descs)
+    self.shown = [show(d) for d in descs]
     self._flags = {}
 
   def flags(self, i, j):
@@ -397,7 +442,7 @@ class Pool:
     return self._flags[key]
 
   def mech(self, idx, raising=False):
-    """Mechanism class of a pair or triple of pool members."""
+    """Mechanism class of one value, a pair or a triple of pool members."""
     fl = set()
     for a in range(len(idx)):
       for b in range(a + 1, len(idx)):
@@ -405,14 +450,16 @@ class Pool:
     for name in (RAISE_PREF if raising else LAW_PREF):
       if name in fl:
         return name
-    ks = [self.kinds[i] for i in idx]
-    if len(idx) > 2:
-      ks = set(ks)
-    return '-'.join(sorted(ks, key=KINDS.index))
+    if len(idx) == 2:
+      ks = [MECH_KIND[kind(v)] for v in locus(self.vals[idx[0]], self.vals[idx[1]])]
+    else:
+      ks = [MECH_KIND[self.kinds[i]] for i in idx]
+      if len(idx) > 2:
+        ks = set(ks)
+    return '-'.join(sorted(ks, key=MECH_ORDER.index))
 
   def witness(self, idx):
-    return {'values': [show(self.descs[i]) for i in idx],
-            'pool': [show(d) for d in self.descs]}
+    return {'values': [self.shown[i] for i in idx], 'pool': self.shown}
 
 
 class Raised:
@@ -457,6 +504,9 @@ def run_case(ctx, i):
   c['pools'] += 1
   c['values'] += n
   strict_hash = bool(ctx.params.get('strict_hash'))
+  c['hash_equal_across_classes'] += 0
+
+  SH = P.shown
 
   def report(clause, idx, detail, raising=False, mech=None):
     ctx.violation(clause, mech or P.mech(idx, raising), detail, P.witness(idx))
@@ -483,7 +533,7 @@ def run_case(ctx, i):
             continue             # same call path as eq: one report
           bad_pair(a, b)
           report(f'{name}-raises', (a, b),
-                 f'pg.{name}({show(descs[a])}, {show(descs[b])}) raised {r.text}', True)
+                 f'pg.{name}({SH[a]}, {SH[b]}) raised {r.text}', True)
         elif not isinstance(r, bool):
           bad_pair(a, b)
           report(f'{name}-not-bool', (a, b), f'pg.{name} returned {r!r:.100}')
@@ -492,24 +542,22 @@ def run_case(ctx, i):
       if isinstance(e, bool) and isinstance(ne, bool):
         c['ne_negation_checks'] += 1
         if ne != (not e):
-          bad_pair(a, b)
           report('ne-not-negation-of-eq', (a, b),
-                 f'pg.eq={e} pg.ne={ne} for ({show(descs[a])}, {show(descs[b])})')
+                 f'pg.eq={e} pg.ne={ne} for ({SH[a]}, {SH[b]})', mech='pg.ne')
   for a in range(n):
     for b in range(n):
       g = call(pg.gt, V[a], V[b])
       c['gt_calls'] += 1
       if isinstance(g, Raised):
         if LT[b][a] is not None:
-          bad_pair(a, b)
-          report('gt-raises', (a, b), f'pg.gt({show(descs[a])}, {show(descs[b])}) raised '
-                 f'{g.text} while pg.lt with swapped arguments returned', True)
+          report('gt-raises', (a, b), f'pg.gt({SH[a]}, {SH[b]}) raised '
+                 f'{g.text} while pg.lt with swapped arguments returned', mech='pg.gt')
       elif LT[b][a] is not None:
         c['gt_swap_checks'] += 1
         if g != LT[b][a]:
-          bad_pair(a, b)
           report('gt-not-swapped-lt', (a, b),
-                 f'pg.gt(a,b)={g} pg.lt(b,a)={LT[b][a]} a={show(descs[a])} b={show(descs[b])}')
+                 f'pg.gt(a,b)={g} pg.lt(b,a)={LT[b][a]} a={SH[a]} b={SH[b]}',
+                 mech='pg.gt')
 
   # -- hashes ------------------------------------------------------------------
   HS = []
@@ -520,7 +568,7 @@ def run_case(ctx, i):
     h = call(pg.hash, sv)
     c['hash_calls'] += 1
     if isinstance(h, Raised):
-      report('hash-raises', (a,), f'pg.hash({show(descs[a])}) raised {h.text}', True)
+      report('hash-raises', (a,), f'pg.hash({SH[a]}) raised {h.text}', True)
       h = None
     HS.append(h)
 
@@ -530,7 +578,7 @@ def run_case(ctx, i):
     c['reflexivity_checks'] += 1
     if EQ[a][a] is False:
       bad_pair(a, a)
-      report('eq-not-reflexive', (a, a), f'pg.eq(v, v) is False for v={show(descs[a])}')
+      report('eq-not-reflexive', (a, a), f'pg.eq(v, v) is False for v={SH[a]}')
     for b in range(a, n):
       ea, eb = EQ[a][b], EQ[b][a]
       if ea is not None and eb is not None:
@@ -538,14 +586,14 @@ def run_case(ctx, i):
         if ea != eb:
           bad_pair(a, b)
           report('eq-asymmetric', (a, b), f'pg.eq(a,b)={ea} pg.eq(b,a)={eb} '
-                 f'a={show(descs[a])} b={show(descs[b])}')
+                 f'a={SH[a]} b={SH[b]}')
           continue
       if a != b and descs[a] == descs[b] and ea is not None:
         c['twin_checks'] += 1
         if not ea:
           bad_pair(a, b)
           report('eq-twin-unequal', (a, b), 'two values built from the same description '
-                 f'are not pg.eq: {show(descs[a])}')
+                 f'are not pg.eq: {SH[a]}')
       if ea and V[a] is not V[b]:
         c['pairs_eq_true_nonidentical'] += 1
         if K[a] != K[b]:
@@ -555,12 +603,12 @@ def run_case(ctx, i):
         if HS[a] != HS[b]:
           bad_pair(a, b)
           report('eq-hash-differ', (a, b), f'pg.eq is True but pg.hash differs: '
-                 f'a={show(descs[a])} b={show(descs[b])}')
+                 f'a={SH[a]} b={SH[b]}')
       if (ea is False and HS[a] is not None and HS[a] == HS[b] and K[a] == K[b] == 'object'
           and type(V[a]) is not type(V[b])):
         c['hash_equal_across_classes'] += 1        # allowed by the property; counted only
         if strict_hash:
-          report('hash-conflates-classes', (a, b), f'a={show(descs[a])} b={show(descs[b])}')
+          report('hash-conflates-classes', (a, b), f'a={SH[a]} b={SH[b]}')
       # trichotomy
       la, lb = LT[a][b], LT[b][a]
       if ea is not None and la is not None and lb is not None:
@@ -577,7 +625,7 @@ def run_case(ctx, i):
           else:
             clause = 'lt-eq-gt-none-holds'
           report(clause, (a, b), f'lt(a,b)={la} eq(a,b)={ea} lt(b,a)={lb} '
-                 f'a={show(descs[a])} b={show(descs[b])}')
+                 f'a={SH[a]} b={SH[b]}')
         # documented order of types
         ra, rb = RANK[K[a]], RANK[K[b]]
         if ra != rb:
@@ -585,7 +633,7 @@ def run_case(ctx, i):
           if la != (ra < rb) or lb != (rb < ra):
             bad_pair(a, b)
             report('lt-type-rank', (a, b), f'documented type order gives lt(a,b)={ra < rb}, '
-                   f'observed lt(a,b)={la} lt(b,a)={lb} a={show(descs[a])} b={show(descs[b])}')
+                   f'observed lt(a,b)={la} lt(b,a)={lb} a={SH[a]} b={SH[b]}')
         elif (min(a, b), max(a, b)) not in bad and a != b:
           exp = first_difference(V[a], V[b])
           if exp is not None:
@@ -594,7 +642,7 @@ def run_case(ctx, i):
               bad_pair(a, b)
               report('lt-first-difference', (a, b),
                      f'{exp[1]}; first-difference rule gives lt(a,b)={exp[0]}, observed {la} '
-                     f'a={show(descs[a])} b={show(descs[b])}')
+                     f'a={SH[a]} b={SH[b]}', mech=MECH_KIND[K[a]])
 
   # -- operators of classes with symbolic comparison -------------------------
   for a in range(n):
@@ -604,7 +652,8 @@ def run_case(ctx, i):
     h = call(hash, va)
     c['operator_checks'] += 1
     if isinstance(h, Raised) or (HS[a] is not None and h != HS[a]):
-      report('op-hash-disagrees', (a,), f'hash(v)={h!r} pg.hash(v)={HS[a]!r} v={show(descs[a])}')
+      report('op-hash-disagrees', (a,), f'hash(v)={h!r} pg.hash(v)={HS[a]!r} v={SH[a]}',
+             mech='object')
     for b in range(n):
       if EQ[a][b] is None:
         continue
@@ -613,10 +662,10 @@ def run_case(ctx, i):
       c['operator_checks'] += 2
       if isinstance(oe, Raised) or bool(oe) != EQ[a][b]:
         report('op-eq-disagrees', (a, b), f'(a == b) gave {oe!r}, pg.eq(a,b)={EQ[a][b]} '
-               f'a={show(descs[a])} b={show(descs[b])}')
+               f'a={SH[a]} b={SH[b]}', mech='object')
       if isinstance(on, Raised) or bool(on) != (not EQ[a][b]):
         report('op-ne-disagrees', (a, b), f'(a != b) gave {on!r}, pg.ne(a,b)={not EQ[a][b]} '
-               f'a={show(descs[a])} b={show(descs[b])}')
+               f'a={SH[a]} b={SH[b]}', mech='object')
 
   # -- triples on the recorded results -------------------------------------------
   def clean(a, b, k):
@@ -640,25 +689,25 @@ def run_case(ctx, i):
             if EQ[a][k] is False and 'eq' not in reported and clean(a, b, k):
               reported.add('eq')
               report('eq-intransitive', (a, b, k), 'eq(a,b) and eq(b,c) but not eq(a,c): '
-                     + ' | '.join(show(descs[x]) for x in (a, b, k)))
+                     + ' | '.join(SH[x] for x in (a, b, k)))
           if LT[b][k]:
             c['triples_congruence_premise'] += 1
             if LT[a][k] is False and 'cg' not in reported and clean(a, b, k):
               reported.add('cg')
               report('lt-eq-incongruent', (a, b, k), 'eq(a,b) and lt(b,c) but not lt(a,c): '
-                     + ' | '.join(show(descs[x]) for x in (a, b, k)))
+                     + ' | '.join(SH[x] for x in (a, b, k)))
           if LT[k][b]:
             c['triples_congruence_premise'] += 1
             if LT[k][a] is False and 'cg' not in reported and clean(a, b, k):
               reported.add('cg')
               report('lt-eq-incongruent', (a, b, k), 'eq(a,b) and lt(c,b) but not lt(c,a): '
-                     + ' | '.join(show(descs[x]) for x in (a, b, k)))
+                     + ' | '.join(SH[x] for x in (a, b, k)))
         if lab and LT[b][k]:
           c['triples_lt_premise'] += 1
           if LT[a][k] is False and 'lt' not in reported and clean(a, b, k):
             reported.add('lt')
             report('lt-intransitive', (a, b, k), 'lt(a,b) and lt(b,c) but not lt(a,c): '
-                   + ' | '.join(show(descs[x]) for x in (a, b, k)))
+                   + ' | '.join(SH[x] for x in (a, b, k)))
   c['triples_total'] += n * (n - 1) * (n - 2)
 
   # -- sorting ---------------------------------------------------------------------
@@ -676,7 +725,7 @@ def run_case(ctx, i):
           explained[0] += 1        # the same call already reported as lt-raises
         else:
           report('sort-raises', (x, y), f'pg.lt raised {r.text} inside sorted() although '
-                 f'it returned before: {show(descs[x])}, {show(descs[y])}', True)
+                 f'it returned before: {SH[x]}, {SH[y]}', True)
     if r1 is True:
       return -1
     return 1 if r2 is True else 0
@@ -706,7 +755,7 @@ def run_case(ctx, i):
             c['sort_misorder_explained_by_triple'] += 1
             continue
           report('sort-misordered', (res2[x], res2[y]), 'later element is pg.lt an earlier '
-                 f'one after sorting: {show(descs[res2[x]])} ... {show(descs[res2[y]])}')
+                 f'one after sorting: {SH[res2[x]]} ... {SH[res2[y]]}')
 
   # -- evidence -----------------------------------------------------------------------
   for kk in set(K):
@@ -718,12 +767,12 @@ def run_case(ctx, i):
   if bad:
     c['pools_with_pair_violation'] += 1
   if (n >= 20 and len(set(K)) >= 5 and collide and max(depth_of(d) for d in descs) >= 2):
-    ctx.mark_nontrivial([show(d) for d in descs])
+    ctx.mark_nontrivial(SH)
   if i < 2:
-    ctx.sample({'pool': [show(d) for d in descs],
+    ctx.sample({'pool': SH,
                 'eq_pairs': sum(1 for a in range(n) for b in range(a + 1, n) if EQ[a][b]),
                 'sorted': None if isinstance(res, Raised) else
-                          [show(descs[x])[:60] for x in res][:12]})
+                          [SH[x][:60] for x in res][:12]})
 
 
 def first_difference(a, b):
